@@ -2,11 +2,14 @@ package c12
 
 import (
 	"fmt"
+	"runtime"
 	"sync"
 	"testing"
 
 	abci "github.com/tendermint/tendermint/abci/types"
 	"github.com/tendermint/tendermint/mempool"
+	"github.com/tendermint/tendermint/proxy"
+	"github.com/tendermint/tendermint/types"
 
 	"verif/lib"
 )
@@ -154,5 +157,160 @@ func TestRegressConcurrentAdmissionWithinLimits(t *testing.T) {
 			return
 		}
 		t.Errorf("v0, mempool.size=%d, %d peers submitting concurrently: in %d of %d rounds Size() was observed above the limit (worst: %d txs)", size, peers, over, rounds, worst)
+	}
+}
+
+// pausedConn is a mempool connection on which the goroutine that asked for a CheckTx can be held up right after
+// the application has answered - i.e. a caller that is descheduled between receiving the answer and using it.
+type pausedConn struct {
+	proxy.AppConnMempool
+	answered chan struct{}
+	resume   chan struct{}
+}
+
+func (p *pausedConn) CheckTxSync(req abci.RequestCheckTx) (*abci.ResponseCheckTx, error) {
+	res, err := p.AppConnMempool.CheckTxSync(req)
+	if req.Type == abci.CheckTxType_New {
+		p.answered <- struct{}{}
+		<-p.resume
+	}
+	return res, err
+}
+
+// v1InflightListed: the finding is listed under its own id, or (until then) under the root cause it shares.
+func v1InflightListed() (string, bool) {
+	if lib.IsKnown(idV1Inflight) {
+		return idV1Inflight, true
+	}
+	if lib.IsKnown(idV1Outside) {
+		return idV1Outside, true
+	}
+	return "", false
+}
+
+// TestRegressV1InflightAcrossUpdate: a transaction is being checked by the application (the answer has arrived,
+// the submitting goroutine has not used it yet) while a block containing that very transaction is committed
+// through Lock; FlushAppConn; Update; Unlock. Afterwards the pool must not hold the committed transaction.
+// Deterministic (no timing): mempool v0 never gets into this position (its CheckTx holds the update lock for
+// reading until the answer is processed), so only v1 is exercised.
+func TestRegressV1InflightAcrossUpdate(t *testing.T) {
+	for _, late := range []string{"late-admission", "late-rejection"} {
+		a := &app{alpha: map[string]int{"in-flight": 0}}
+		if late == "late-rejection" {
+			a.tab[0].CodeNew = 1 // the (pre-commit) answer is a rejection: it must not make the cache forget the tx
+		}
+		cli, err := proxy.NewLocalClientCreator(a).NewABCIClient()
+		if err != nil || cli.Start() != nil {
+			t.Fatalf("VERIF-INFRA: abci client: %v", err)
+		}
+		conn := &pausedConn{AppConnMempool: proxy.NewAppConnMempool(cli), answered: make(chan struct{}, 1), resume: make(chan struct{})}
+		s := newSUTConn(regressConf(true, 100), conn, nil, nil)
+		tx := types.Tx("in-flight")
+		done := make(chan error, 1)
+		go func() { done <- s.mp.CheckTx(tx, nil, mempool.TxInfo{SenderID: 1}) }()
+		<-conn.answered
+		// the block (proposed by someone else) that contains tx is committed
+		s.mp.Lock()
+		_ = s.mp.FlushAppConn()
+		err = s.mp.Update(1, types.Txs{tx}, []*abci.ResponseDeliverTx{{Code: abci.CodeTypeOK}}, nil, nil)
+		s.mp.Unlock()
+		if err != nil {
+			t.Fatal(err)
+		}
+		close(conn.resume)
+		<-done
+		lib.Case("TestRegressV1InflightAcrossUpdate", lib.FP(late), true, late)
+		var bad string
+		if s.mp.Size() != 0 {
+			bad = fmt.Sprintf("the pool holds %q, committed in block 1", s.mp.ReapMaxTxs(-1))
+		} else if !s.has(tx) {
+			bad = "the cache no longer remembers the tx committed in block 1 (a CheckTx of it would be accepted again)"
+		}
+		_ = cli.Stop()
+		if bad == "" {
+			continue
+		}
+		if id, ok := v1InflightListed(); ok {
+			lib.ObservedKnown(id)
+			lib.ExcludedByKnown(id)
+			continue
+		}
+		t.Errorf("mempool v1, %s: CheckTx(tx) answered by the application, then Lock/FlushAppConn/Update(1,[tx])/Unlock, then the CheckTx call goes on: %s", late, bad)
+	}
+}
+
+// TestRegressFlushDuringAdmission: an operator flushes a v0 mempool (unsafe_flush_mempool) while peers keep
+// submitting. Whatever survives, the pool must stay consistent: Size()/SizeBytes() equal the contents, no tx twice,
+// and a block that commits everything pooled empties it. (Schedule-dependent: the rounds below make the
+// unrepaired tree fail with overwhelming probability; a repaired tree can never fail it.)
+func TestRegressFlushDuringAdmission(t *testing.T) {
+	const rounds, peers, perPeer = 60, 6, 60
+	bad := map[string]int{}
+	var mu sync.Mutex
+	for r := 0; r < rounds; r++ {
+		c := regressConf(false, 1000)
+		c.Size = 1000
+		s, err := newSUT(c, acceptAll{}, nil, nil)
+		if err != nil {
+			t.Fatalf("VERIF-INFRA: %v", err)
+		}
+		var wg sync.WaitGroup
+		for p := 0; p < peers; p++ {
+			wg.Add(1)
+			go func(p int) {
+				defer wg.Done()
+				defer func() { // the p2p layer recovers a panicking Receive and drops the peer
+					if x := recover(); x != nil {
+						mu.Lock()
+						bad[fmt.Sprintf("CheckTx panicked: %v", x)]++
+						mu.Unlock()
+					}
+				}()
+				for k := 0; k < perPeer; k++ {
+					_ = s.mp.CheckTx([]byte{byte('a' + p), byte(k), 'x'}, nil, mempool.TxInfo{SenderID: uint16(p + 1)})
+				}
+			}(p)
+		}
+		wg.Add(1)
+		go func() {
+			defer wg.Done()
+			for i := 0; i < 40; i++ {
+				s.mp.Flush()
+				runtime.Gosched()
+			}
+		}()
+		wg.Wait()
+		all := s.mp.ReapMaxTxs(-1)
+		var sum int64
+		for _, tx := range all {
+			sum += int64(len(tx))
+		}
+		if d := dupIn(all); d != "" {
+			bad["a tx is pooled twice"]++
+		}
+		if s.mp.Size() != len(all) || s.mp.SizeBytes() != sum {
+			bad[fmt.Sprintf("Size()/SizeBytes() differ from the contents (e.g. %d/%d vs %d txs/%d bytes)", s.mp.Size(), s.mp.SizeBytes(), len(all), sum)]++
+		}
+		resps := make([]*abci.ResponseDeliverTx, len(all))
+		for i := range resps {
+			resps[i] = &abci.ResponseDeliverTx{}
+		}
+		s.mp.Lock()
+		_ = s.mp.FlushAppConn()
+		_ = s.mp.Update(1, all, resps, nil, nil)
+		s.mp.Unlock()
+		if s.mp.Size() != 0 || s.mp.SizeBytes() != 0 {
+			bad["committing everything pooled does not empty the pool"]++
+		}
+		s.stop()
+	}
+	lib.Case("TestRegressFlushDuringAdmission", lib.FP(rounds, peers, perPeer), true)
+	if len(bad) > 0 {
+		if lib.IsKnown(idFlush) {
+			lib.ObservedKnown(idFlush)
+			lib.ExcludedByKnown(idFlush)
+			return
+		}
+		t.Errorf("v0, Flush while %d peers submit, %d rounds: %v", peers, rounds, bad)
 	}
 }
